@@ -55,6 +55,12 @@ CLAIMED.update({
     design_ref="§4 C09", note=PANIC_NOTE.replace("T1/T2/T4/T5/T6", "T1/T2") + " Assumption A3: cursor coordinates plus a small constant do not wrap. Terminal invariants: the buffer is a terminal buffer; TerminalState.size >= 1x1 (stores checked).",
     technique="static analysis: modular contract checking by abstract interpretation over MIR + must-pass-through / control-dependence rules + call-graph reachability"),
 })
+CLAIMED.update({
+ "C20": dict(category="other",
+    text="Crash clause only: the C01 calculus over every body reachable from the RIPscrip and IGS print_char / get_picture_data entry points (command tables reached through dyn Command / dyn CommandExecutor by class-hierarchy analysis): each index, slice, unwrap, explicit panic / todo!(), division (zero divisor and MIN / -1) is discharged, trusted, reviewed with a one-line argument, or listed as a known genuine defect (55 sites: unchecked table and canvas indexing, Rectangle::from_coords assertions, todo!() arms, zero-point polygons, ...). Plus R-RIP-CURSOR: the RIP parameter cursor and the command slot are reset on every transition into ReadParams, which the variable-length commands' pop().unwrap() rely on. Not decided: the time bound (loops and sleeps driven by parameter values) and the completeness of the exposed canvas.",
+    design_ref="§4 C20", note=PANIC_NOTE,
+    technique="static analysis: abstract interpretation over type-checked MIR + call-graph reachability (CHA) + typestate rule on parser state stores"),
+})
 NOT_APPLICABLE = {p: PENDING for p in ["C%02d" % i for i in range(1, 21)]}
 NOT_APPLICABLE.update({
  "C05": "value-level: equality of pictures after save->load depends on run-time cell values along data-dependent paths of two separate programs (writer, reader); no structural clause is a genuine necessary condition that is not also a frozen-layout match (DESIGN §5)",
